@@ -63,7 +63,9 @@ struct Fixture {
             s += (char)('a' + i % 26); }
         return s;
     }
-    void build(size_t size_arg, bool t_long, bool a_long, bool ss_heap) {
+    // ext: extra pre-states (histories) of the objects - 1 stream grown to the heap then truncate(0); 2 grown then erased down to 3 bytes;
+    // 3 fresh empty stream; 4 default-constructed (empty) targets; 5 moved-from targets; 6 = 3+4; 7 = 1+4
+    void build(size_t size_arg, bool t_long, bool a_long, bool ss_heap, int ext = 0) {
         n = size_arg;
         raw8 = text(n, 1); latin1 = raw8; for (char &ch : latin1) if ((unsigned char)ch >= 0x80) ch = (char)0xE9;
         for (size_t i = 0; i < n; i++) { uint32_t v = (i % 4 == 1) ? 0xE9 : (i % 6 == 2) ? 0x1F600 : 'A' + i % 26; raw32.push_back(v); raww.push_back((wchar_t)v);
@@ -80,7 +82,12 @@ struct Fixture {
             U32.obj = new (U32.slot()) ST::utf32_buffer(t_long ? 30 : 3, U'u'); U32b.obj = new (U32b.slot()) ST::utf32_buffer(a_long ? 31 : 2, U'v');
             W.obj = new (W.slot()) ST::wchar_buffer(t_long ? 30 : 3, L'u'); Wb.obj = new (Wb.slot()) ST::wchar_buffer(a_long ? 31 : 2, L'v');
             SS.obj = new (SS.slot()) ST::string_stream();
-            if (ss_heap) SS.obj->append_char('s', 700); else SS.obj->append("stream", 6);
+            if (ext == 1 || ext == 7) { SS.obj->append_char('s', ss_heap ? 3000 : 700); SS.obj->truncate(0); }
+            else if (ext == 2) { SS.obj->append_char('s', ss_heap ? 3000 : 700); SS.obj->erase(SS.obj->size() - 3); }
+            else if (ext == 3 || ext == 6) { }
+            else if (ss_heap) SS.obj->append_char('s', 700); else SS.obj->append("stream", 6);
+            if (ext == 4 || ext == 6 || ext == 7) { *T.obj = ST::string(); *CB.obj = ST::char_buffer(); *U16.obj = ST::utf16_buffer(); *U32.obj = ST::utf32_buffer(); *W.obj = ST::wchar_buffer(); }
+            else if (ext == 5) { ST::string t(std::move(*T.obj)); ST::char_buffer c(std::move(*CB.obj)); ST::utf16_buffer u(std::move(*U16.obj)); ST::utf32_buffer v(std::move(*U32.obj)); ST::wchar_buffer x(std::move(*W.obj)); }
             HEX = new ST::string(ST::hex_encode(raw8.data(), raw8.size())); B64 = new ST::string(ST::base64_encode(raw8.data(), raw8.size()));
         }
         snapshot();
@@ -278,11 +285,12 @@ const Op kOps[] = {
 const int kNOps = (int)(sizeof(kOps) / sizeof(kOps[0]));
 const size_t kSizes[] = {3, 15, 16, 40, 300, 1100};
 
-struct Instance { int op; int size_idx; bool t_long, a_long, ss_heap; };
+struct Instance { int op; int size_idx; bool t_long, a_long, ss_heap; int ext; };
 
+const char *const kExt[8] = {"", "stream grown then truncate(0)", "stream grown then erased to 3 bytes", "fresh empty stream", "empty targets", "moved-from targets", "fresh stream + empty targets", "stream grown then truncate(0) + empty targets"};
 std::string describe(const Instance &in, long N, long k) {
     return std::string("C19 op=") + kOps[in.op].name + " n=" + verif::unum(kSizes[in.size_idx]) + " target=" + (in.t_long ? "long" : "short") + " source=" + (in.a_long ? "long" : "short") +
-           " stream=" + (in.ss_heap ? "heap" : "in-object") + " allocs=" + verif::num(N) + (k ? " fail k=" + verif::num(k) : "");
+           " stream=" + (in.ss_heap ? "heap" : "in-object") + (in.ext ? std::string(" pre-state=") + kExt[in.ext] : std::string()) + " allocs=" + verif::num(N) + (k ? " fail k=" + verif::num(k) : "");
 }
 
 // Runs one instance: counting pass + one faulted run per allocation.  Returns "" or the violation (with the failing k in *kfail).
@@ -291,7 +299,7 @@ std::string run_instance(const Instance &in, long &N, long &pairs, long &nontriv
     // counting pass (no fault)
     {
         va::reset();
-        Fixture f; f.build(kSizes[in.size_idx], in.t_long, in.a_long, in.ss_heap);
+        Fixture f; f.build(kSizes[in.size_idx], in.t_long, in.a_long, in.ss_heap, in.ext);
         long before = va::scope_allocs();
         try { va::LibScope l; op.run(f); }
         catch (...) { return "the operation throws without any injected fault: " + verif::describe_current_exception(); }
@@ -303,7 +311,7 @@ std::string run_instance(const Instance &in, long &N, long &pairs, long &nontriv
     for (long k = 1; k <= N; k++) {
         if (only_k && k != only_k) continue;
         va::reset();
-        Fixture f; f.build(kSizes[in.size_idx], in.t_long, in.a_long, in.ss_heap);
+        Fixture f; f.build(kSizes[in.size_idx], in.t_long, in.a_long, in.ss_heap, in.ext);
         bool got_bad_alloc = false; std::string other;
         va::arm_fault(k);
         try { va::LibScope l; op.run(f); }
@@ -329,7 +337,7 @@ std::string run_instance(const Instance &in, long &N, long &pairs, long &nontriv
 Instance decode(verif::Reader &r) {
     Instance in;
     in.op = (int)r.idx(kNOps); in.size_idx = (int)r.idx(6);
-    uint8_t fl = r.u8(); in.t_long = fl & 1; in.a_long = fl & 2; in.ss_heap = fl & 4;
+    uint8_t fl = r.u8(); in.t_long = fl & 1; in.a_long = fl & 2; in.ss_heap = fl & 4; in.ext = (fl >> 3) & 7;
     return in;
 }
 
@@ -358,10 +366,11 @@ long verif_enumerate(int shard, int nshards, int tier, verif::EnumReport &r) {
     uint8_t cur[8];
     for (int op = 0; op < kNOps; op++)
         for (int sz = 0; sz < 6; sz++)
-            for (int fl = 0; fl < 8; fl++, idx++) {
+            for (int fl = 0; fl < 64; fl++, idx++) {
                 if (idx % nshards != shard) continue;
                 if (!tier && (sz == 1 || sz == 5) && (fl & 4)) continue;      // quick tier: a thinner cross product
-                Instance in{op, sz, (fl & 1) != 0, (fl & 2) != 0, (fl & 4) != 0};
+                if (!tier && (fl >> 3) && (sz == 0 || sz == 3) ) continue;   // quick tier: extra pre-states with 4 of the 6 size classes
+                Instance in{op, sz, (fl & 1) != 0, (fl & 2) != 0, (fl & 4) != 0, fl >> 3};
                 cur[0] = (uint8_t)op; cur[1] = (uint8_t)sz; cur[2] = (uint8_t)fl; cur[3] = 0; verif::set_current(cur, 4);
                 long N = 0, pairs = 0, nt = 0, kf = 0;
                 std::string why = run_instance(in, N, pairs, nt, 0, &kf);
@@ -370,7 +379,7 @@ long verif_enumerate(int shard, int nshards, int tier, verif::EnumReport &r) {
                 if (!why.empty()) { r.failure = why; r.failing_case = describe(in, N, kf); r.failing_bytes.assign(cur, cur + 4); return r.evaluations; }
             }
     va::reset();
-    if (shard == 0) r.exhausted.push_back(std::string("every operation of the catalogue (") + verif::num(kNOps) + " operations) x 6 size classes x target/source/stream storage modes" + (tier ? "" : " (thinned in the quick tier)") + " x every allocation it performs");
+    if (shard == 0) r.exhausted.push_back(std::string("every operation of the catalogue (") + verif::num(kNOps) + " operations) x 6 size classes x target/source/stream storage modes x 8 pre-states (stream grown then emptied / erased / fresh, targets empty / moved-from)" + (tier ? "" : " (thinned in the quick tier)") + " x every allocation it performs");
     return r.evaluations;
 }
 
